@@ -505,7 +505,7 @@ func parent(prop, level string, scenarios []Scenario, describe func(r *mc.Run)) 
 								}
 							case "violation":
 								rep := map[string]any{"scenario": s.Name, "phase": pi, "bound": ph.Bound, "filter": ph.Filter, "prefix": m.Prefix, "reproduced": "5/5", "how": fmt.Sprintf("bin/replay %s <this file>  (needs the scheduler: replays the schedule prefix, default choices afterwards)", prop)}
-								r.Violation(classPrefix(s)+":"+m.Class, fmt.Sprintf("scenario %s, schedule prefix %v: %s", s.Name, m.Prefix, m.Detail), rep)
+								r.Violation(classPrefix(s)+":"+m.Class, fmt.Sprintf("scenario %s, schedule %s: %s", s.Name, prefixString(m.Prefix), m.Detail), rep)
 							case "harness":
 								fmt.Fprintf(os.Stderr, "harness: scenario %s shard %d: %s: %s (prefix %v)\n", s.Name, k, m.Class, m.Detail, m.Prefix)
 								r.Cap(fmt.Sprintf("harness nondeterminism in scenario %s: %s — %s", s.Name, m.Class, m.Detail))
@@ -716,4 +716,18 @@ func firstLines(s string, n int) string {
 		ls = ls[:n]
 	}
 	return strings.Join(ls, " | ")
+}
+
+// prefixString renders a schedule prefix compactly: the non-default choices and their positions.
+func prefixString(p []int) string {
+	var dev []string
+	for i, c := range p {
+		if c != 0 {
+			dev = append(dev, fmt.Sprintf("choice#%d=alt%d", i, c))
+		}
+	}
+	if len(dev) == 0 {
+		return "default schedule"
+	}
+	return fmt.Sprintf("default schedule except %s (prefix length %d)", strings.Join(dev, ", "), len(p))
 }
